@@ -99,6 +99,7 @@ type TxSpec struct {
 	Msgs   []sdk.Msg
 	Raw    []byte // pre-built tx bytes (optional)
 	OnResult func(code uint32) // called after the block with the tx result code
+	Fee      sdk.Coins
 }
 
 type TxResult struct {
@@ -358,11 +359,14 @@ func (c *Chain) accountNumSeq(a *Account) (uint64, uint64) {
 	return acc.GetAccountNumber(), acc.GetSequence()
 }
 
-func (c *Chain) signTx(txCfg client.TxConfig, a *Account, seqOffset uint64, msgs []sdk.Msg) []byte {
+func (c *Chain) signTx(txCfg client.TxConfig, a *Account, seqOffset uint64, msgs []sdk.Msg, fee sdk.Coins) []byte {
 	num, seq := c.accountNumSeq(a)
+	if fee == nil {
+		fee = sdk.Coins{sdk.NewInt64Coin(BondDenom, 0)}
+	}
 	tx, err := simtestutil.GenSignedMockTx(
 		rand.New(rand.NewSource(1)), txCfg, msgs,
-		sdk.Coins{sdk.NewInt64Coin(BondDenom, 0)}, 50_000_000, c.ChainID,
+		fee, 50_000_000, c.ChainID,
 		[]uint64{num}, []uint64{seq + seqOffset}, a.Priv)
 	if err != nil {
 		panic(err)
@@ -393,7 +397,7 @@ func (c *Chain) ProduceBlock(txs []TxSpec, dt int64, absent map[string]bool) *Bl
 	for i := range txs {
 		tx := &txs[i]
 		if tx.Raw == nil {
-			tx.Raw = c.signTx(c.TxConfig, tx.Signer, seqOff[tx.Signer.Name], tx.Msgs)
+			tx.Raw = c.signTx(c.TxConfig, tx.Signer, seqOff[tx.Signer.Name], tx.Msgs, tx.Fee)
 			seqOff[tx.Signer.Name]++
 		}
 		txBytes = append(txBytes, tx.Raw)
